@@ -168,6 +168,9 @@ pub fn check(start: Start, b: &[u8], ctx: &mut Ctx) -> Result<(), Failure> {
                         if !class_matches(&o, &r_lax.faults) {
                             c.fail("stop_err", "class", format!("stop error {:?} is not among the faults present: {:?}", e, r_lax.faults));
                         }
+                        if let Some(m) = exts_variant_mismatch(e, &r_lax) {
+                            c.fail("stop_err", "class", m);
+                        }
                         let ln = format!("{:?}", layer);
                         if !stop_layers(f.at).contains(&ln.as_str()) {
                             c.fail("stop_err", "layer", format!("stop layer {} but the fault is in {} (acceptable {:?})", ln, f.at, stop_layers(f.at)));
@@ -352,6 +355,9 @@ fn headers_family(start: Start, b: &[u8], r: &RefOut, ctx: &mut Ctx) -> Result<(
                     let o = obs_slice_error(e);
                     if !class_matches(&o, &r.faults) && fits {
                         c.fail("stop_err", "class", format!("stop error {:?} is not among the faults present: {:?}", e, r.faults));
+                    }
+                    if let Some(m) = exts_variant_mismatch(e, r).filter(|_| fits) {
+                        c.fail("stop_err", "class", m);
                     }
                     let ln = format!("{:?}", layer);
                     if !stop_layers(f.at).contains(&ln.as_str()) && fits {
